@@ -9,6 +9,11 @@ import wcag_ref
 VAR_RE = re.compile(r"var\(\s*(--[^\s,)]+)\s*(?:,(.*))?\)\s*$", re.S)
 
 
+def nocomment(v):
+    """a declaration value without the comments written inside it (they are not part of the value)"""
+    return re.sub(r"/\*.*?\*/", "", v, flags=re.S).strip()
+
+
 def css_rules(nodes, depth=0, path=()):
     """(path, selector, items) of every qualified rule at any depth of @media/@supports"""
     for i, n in enumerate(nodes):
@@ -39,7 +44,7 @@ def custom_props(nodes):
 
 def resolve(value, props, seen=()):
     """CSS semantics of var(--x[, fallback]) for a value that is a single var() or a literal"""
-    v = value.strip()
+    v = nocomment(value)
     m = VAR_RE.match(v) if v.startswith("var(") else None
     if not m:
         return v
@@ -164,7 +169,7 @@ def evaluate(css_text, out_bytes, impl, default_bg, mode, premium, api):
             written = None
             if on is not None and on[0] == "R":
                 od = last_decl(on[2], "color")
-                written = od[1][3].strip() if od else None
+                written = nocomment(od[1][3]) if od else None
             via = None
             if written is not None and written.startswith("var(") and written != tuned:
                 m = VAR_RE.match(written)
